@@ -416,7 +416,7 @@ def gen_leaf(rng, prof):
     if k == 17:
         return Q.Variations(fld, rng.choice(ALPHA), boost=b)
     if k == 18:
-        return Q.Regex(fld, rng.choice(["a.*", "ab?", "[ab]+", "c|d", "b.?"]), boost=b)
+        return Q.Regex(fld, rng.choice(REGEXES), boost=b)
     if prof.get("spans", True):
         return gen_span(rng, rng.choice([0, 0, 1]), prof)
     return Q.Term(fld, rng.choice(ALPHA), boost=b)
@@ -452,6 +452,40 @@ def gen_span(rng, depth, prof=None):
     return cls(child(depth), child(depth))
 
 
+SEQWORDS = ["a", "b", "c", "ab"]
+
+
+def gen_seq(rng, depth, prof, fld=None, parent=None, boost=1.0):
+    """Sequence/Ordered over one positional field; with depth > 0 some members are themselves
+    Sequence/Ordered nodes (mixed classes; slop/ordered equal to the parent's half of the time, so that
+    a rewrite that merges a nested sequence into its parent has something to merge)."""
+    from whoosh import query as Q
+    words = SEQWORDS if prof.get("seqwords") else ALPHA
+    if fld is None:
+        fld = rng.choice("fg")
+    cls = rng.choice([Q.Sequence, Q.Sequence, Q.Ordered])
+    if parent is not None and rng.random() < 0.5:
+        slop, ordered = parent
+        if rng.random() < 0.5:
+            cls = Q.Sequence
+    else:
+        slop, ordered = rng.randint(1, 3), rng.random() < 0.7
+    kids = []
+    for _ in range(rng.choice([1, 2, 2, 3])):
+        r = rng.random()
+        # members that keep span support under every rewrite (multi-term and Or members make the
+        # span matchers raise depending on the segment layout: not this property)
+        if depth > 0 and r < 0.4:
+            kids.append(gen_seq(rng, depth - 1, prof, fld, (slop, ordered), rng.choice([1.0, 1.0, 2.0])))
+        elif r < 0.8:
+            kids.append(Q.Term(fld, rng.choice(words)))
+        elif r < 0.88:
+            kids.append(Q.Wildcard(fld, rng.choice(["a", "b", "ab"])))
+        else:
+            kids.append(Q.Phrase(fld, [rng.choice(words), rng.choice(words)]))
+    return cls(kids, slop=slop, ordered=ordered, boost=boost)
+
+
 def gen_query(rng, depth, prof):
     """Random query tree.  prof: voids (NullQuery, empty compounds, empty phrases allowed),
     same (probability of repeating the parent's class to provoke flattening)."""
@@ -459,6 +493,8 @@ def gen_query(rng, depth, prof):
     if depth <= 0 or rng.random() < 0.3:
         return gen_leaf(rng, prof)
     b = rng.choice(BOOSTS)
+    if rng.random() < prof.get("seqbias", 0.0):
+        return gen_seq(rng, rng.choice([1, 1, 2]), prof, boost=b)
     k = rng.randrange(16)
     if prof.get("voids", True):
         n = rng.choice([0, 1, 1, 2, 2, 2, 3, 3, 4])
@@ -473,8 +509,18 @@ def gen_query(rng, depth, prof):
                 m = rng.choice([1, 2, 2, 3])
                 res.append(parent([gen_query(rng, depth - 2, prof) for _ in range(m)],
                                   boost=rng.choice(BOOSTS)))
-            elif res and rng.random() < 0.15:
-                res.append(copy.deepcopy(rng.choice(res)))  # duplicate clause
+            elif res and rng.random() < 0.2:
+                dup = copy.deepcopy(rng.choice(res))  # duplicate clause ...
+                if rng.random() < 0.4:
+                    # ... or a near-duplicate: one constructor argument of one node differs, so the
+                    # de-duplication (`s in seenqs`: __hash__ + __eq__) must keep both
+                    try:
+                        m = mutate_sx(rng, parse1(q2s(dup)))
+                        if m is not None:
+                            dup = s2q(m)
+                    except Unserializable:
+                        pass
+                res.append(dup)
             else:
                 res.append(gen_query(rng, depth - 1, prof))
         return res
@@ -494,20 +540,7 @@ def gen_query(rng, depth, prof):
         # false; ConstantScoreQuery is not normalized inside, so keep empties out of it
         return Q.ConstantScoreQuery(gen_query(rng, depth - 1, dict(prof, voids=False)), score=b)
     if k in (13, 14):
-        cls = rng.choice([Q.Sequence, Q.Sequence, Q.Ordered])
-        fld = rng.choice("fg")
-        kids = []
-        for _ in range(rng.choice([1, 2, 2, 3])):
-            r = rng.random()
-            # children that keep span support under every rewrite (multi-term and Or children make
-            # the span matchers raise depending on the segment layout: not this property)
-            if r < 0.75:
-                kids.append(Q.Term(fld, rng.choice(ALPHA)))
-            elif r < 0.85:
-                kids.append(Q.Wildcard(fld, rng.choice(["a", "b", "ab"])))
-            else:
-                kids.append(Q.Phrase(fld, [rng.choice(ALPHA), rng.choice(ALPHA)]))
-        return cls(kids, slop=rng.randint(1, 3), ordered=rng.random() < 0.7, boost=b)
+        return gen_seq(rng, rng.choice([0, 1, 1, 2]), prof, boost=b)
     # range-heavy compound: overlapping / duplicate ranges on one field
     cls = rng.choice([Q.And, Q.Or, Q.Or, Q.DisjunctionMax])
     fld = rng.choice(["f", "g", "k"])
@@ -568,7 +601,11 @@ def gen_docs(rng, prof):
     for i in range(rng.randint(1, prof.get("maxdocs", 9))):
         d = {}
         for fld in "fg":
-            if rng.random() < 0.7:
+            if prof.get("longdocs"):
+                # few distinct words, longer fields: word order and adjacency decide positional queries
+                if rng.random() < 0.85:
+                    d[fld] = " ".join(rng.choice(SEQWORDS) for _ in range(rng.randint(2, 7)))
+            elif rng.random() < 0.7:
                 d[fld] = " ".join(rng.choice(ALPHA) for _ in range(rng.randint(1, 4)))
         r = rng.random()
         if r < 0.5:
@@ -705,14 +742,261 @@ def docs_of(searcher, q):
     return sorted(res)
 
 
-def env_text(docs, live, multirows, seqrows, opqrows=()):
-    """(env (docs ..) (multi ..) (seq ..)); only live documents are in the spec's index"""
+def docs_text(docs, ids):
+    """(ID (F tok ..) ..) .. for the documents whose number is in `ids`"""
     dtxt = []
     for i, d in enumerate(docs):
-        if i not in live:
+        if i not in ids:
             continue
         toks = doc_tokens(d)
         dtxt.append("(%d %s)" % (i, " ".join("(%d %s)" % (f, " ".join(t2s(t) for t in ts))
                                              for f, ts in sorted(toks.items()))))
+    return dtxt
+
+
+def env_text(docs, live, multirows, seqrows, opqrows=()):
+    """(env (docs ..) (multi ..) (seq ..)); only live documents are in the spec's index"""
+    dtxt = docs_text(docs, live)
     return "(env (docs %s) (multi %s) (seq %s) (opq %s))" % (" ".join(dtxt), " ".join(multirows),
                                                               " ".join(seqrows), " ".join(opqrows))
+
+
+# ------------------------------------------------------------------------------------------------
+# single-attribute mutations (near-duplicates for the equality/hash stream and for de-duplication)
+
+def _other(rng, cur, pool):
+    cands = [v for v in pool if v != cur]
+    return rng.choice(cands) if cands else cur
+
+
+REGEXES = ["a.*", "ab?", "[ab]+", "c|d", "b.?"]
+
+
+def _mut_text(rng, t, pool=None):
+    """another term text (parsed form: list of code point strings) from the pool of valid texts of
+    the node's class"""
+    cur = s2t(t)
+    new = _other(rng, cur, pool or ALPHA)
+    return [str(ord(c)) for c in new]
+
+
+def _mut_boost(rng, b):
+    return r2s(_other(rng, s2r(b), [1.0, 2.0, 0.5, 4.0]))
+
+
+def _flip(v):
+    return "0" if v == "1" else "1"
+
+
+def mutate_sx(rng, x, fields=("0", "1", "2")):
+    """A copy of the parsed tree `x` in which exactly one constructor argument of one node differs
+    (text, field, boost, a flag, a bound, a slop, the class of a compound, the order of the two sides of
+    a binary query, one clause dropped, ...).  Returns None if nothing can be changed."""
+    if x == "null":
+        return None
+    tag = x[0]
+    cs = children(x)
+    if cs and rng.random() < 0.5:
+        i = rng.randrange(len(cs))
+        m = mutate_sx(rng, cs[i], fields)
+        if m is not None:
+            return with_children(x, cs[:i] + [m] + cs[i + 1:])
+    x = list(x)
+    if tag == "every":
+        if rng.random() < 0.5:
+            x[1] = _other(rng, x[1], ["none"] + list(fields))
+        else:
+            x[2] = _mut_boost(rng, x[2])
+        return x
+    if tag == "term":
+        k = rng.randrange(3)
+        if k == 0:
+            x[1] = _other(rng, x[1], fields)
+        elif k == 1:
+            x[2] = _mut_text(rng, x[2])
+        else:
+            x[3] = _mut_boost(rng, x[3])
+        return x
+    if tag in ("pre", "wild"):
+        k = rng.randrange(4)
+        if k == 0:
+            x[1] = _other(rng, x[1], fields)
+        elif k == 1:
+            x[2] = _mut_text(rng, x[2], WILDS if tag == "wild" else ALPHA + [""])
+        elif k == 2:
+            x[3] = _mut_boost(rng, x[3])
+        else:
+            x[4] = _flip(x[4])
+        return x
+    if tag == "multi":
+        kind = x[1]
+        k = rng.randrange(3)
+        if k == 0 and kind != "3":
+            x[3] = _mut_text(rng, x[3], REGEXES if kind == "2" else ALPHA)
+        elif k == 1:
+            key = int(x[4])
+            if kind == "0":
+                key = key + rng.choice([1000, 10]) if key % 1000 < 10 else key - 10
+                key ^= rng.choice([0, 1])
+            elif kind == "2":
+                key ^= 1
+            elif kind == "3":
+                s, e, sx, ex, c = _nr_unkey(key)
+                j = rng.randrange(5)
+                if j == 0:
+                    s = _other(rng, s, [None, 0, 3, 5])
+                elif j == 1:
+                    e = _other(rng, e, [None, 2, 5, 9])
+                elif j == 2:
+                    sx = not sx
+                elif j == 3:
+                    ex = not ex
+                else:
+                    c = not c
+
+                class _NR(object):
+                    start, end, startexcl, endexcl, constantscore = s, e, sx, ex, c
+                key = _nr_key(_NR)
+            else:
+                x[5] = _mut_boost(rng, x[5])
+            x[4] = str(key)
+        else:
+            x[5] = _mut_boost(rng, x[5])
+        return x
+    if tag == "range":
+        k = rng.randrange(6)
+        if k == 0:
+            cur = None if x[2] == "none" else s2t(x[2])
+            new = _other(rng, cur, RANGE_LO)
+            x[2] = "none" if new is None else [str(ord(c)) for c in new]
+        elif k == 1:
+            cur = None if x[3] == "none" else s2t(x[3])
+            new = _other(rng, cur, RANGE_HI)
+            x[3] = "none" if new is None else [str(ord(c)) for c in new]
+        elif k == 2:
+            x[4] = _flip(x[4])
+        elif k == 3:
+            x[5] = _flip(x[5])
+        elif k == 4:
+            x[6] = _mut_boost(rng, x[6])
+        else:
+            x[7] = _flip(x[7])
+        return x
+    if tag == "phrase":
+        k = rng.randrange(3)
+        ws = list(x[2])
+        if k == 0 and ws:
+            i = rng.randrange(len(ws))
+            ws[i] = _mut_text(rng, ws[i])
+            x[2] = ws
+        elif k == 1:
+            x[3] = str(int(x[3]) % 3 + 1)
+        else:
+            x[4] = _mut_boost(rng, x[4])
+        return x
+    if tag in ("and", "or", "dismax"):
+        k = rng.randrange(4)
+        kids = list(x[1])
+        if k == 0:
+            x[0] = _other(rng, tag, ["and", "or", "dismax"])
+        elif k == 1 and len(kids) > 1:
+            del kids[rng.randrange(len(kids))]
+            x[1] = kids
+        elif k == 2 and len(kids) > 1 and unparse(kids[0]) != unparse(kids[-1]):
+            kids[0], kids[-1] = kids[-1], kids[0]
+            x[1] = kids
+        else:
+            x[2] = _mut_boost(rng, x[2])
+        return x
+    if tag == "seq":
+        k = rng.randrange(4)
+        if k == 0:
+            x[1] = _flip(x[1])
+        elif k == 1:
+            x[3] = str(int(x[3]) % 3 + 1)
+        elif k == 2:
+            x[4] = _flip(x[4])
+        else:
+            x[5] = _mut_boost(rng, x[5])
+        return x
+    if tag == "not":
+        x[2] = _mut_boost(rng, x[2])
+        return x
+    if tag in ("andnot", "andmaybe", "require", "otherwise"):
+        if rng.random() < 0.5 and unparse(x[1]) != unparse(x[2]):
+            x[1], x[2] = x[2], x[1]
+        else:
+            x[0] = _other(rng, tag, ["andnot", "andmaybe", "require", "otherwise"])
+        return x
+    if tag == "const":
+        x[2] = _mut_boost(rng, x[2])
+        return x
+    if tag == "opq":
+        inner = opq_inner(x)
+        it = inner[0]
+        inner = list(inner)
+        subs_at = {"spanfirst": [2], "spannear": [4, 5], "spannot": [1, 2], "spancontains": [1, 2],
+                   "spanbefore": [1, 2], "spancond": [1, 2]}
+        if it in subs_at and rng.random() < 0.5:
+            i = rng.choice(subs_at[it])
+            m = mutate_sx(rng, inner[i], ("0", "1"))
+            if m is None:
+                return None
+            inner[i] = m
+        elif it in ("spannear2", "spanor"):
+            pos = 4 if it == "spannear2" else 1
+            kids = list(inner[pos])
+            if it == "spanor" or rng.random() < 0.5:
+                i = rng.randrange(len(kids))
+                m = mutate_sx(rng, kids[i], ("0", "1"))
+                if m is None:
+                    return None
+                kids[i] = m
+                inner[pos] = kids
+            else:
+                j = rng.randrange(3)
+                if j == 0:
+                    inner[1] = str(int(inner[1]) % 4 + 1)
+                elif j == 1:
+                    inner[2] = _flip(inner[2])
+                else:
+                    inner[3] = str(int(inner[3]) % 2 + 1)
+        elif it == "spanfirst":
+            inner[1] = str((int(inner[1]) + 1) % 3)
+        elif it == "spannear":
+            j = rng.randrange(3)
+            if j == 0:
+                inner[1] = str(int(inner[1]) % 4 + 1)
+            elif j == 1:
+                inner[2] = _flip(inner[2])
+            else:
+                inner[3] = str(int(inner[3]) % 2 + 1)
+        else:
+            # SpanNot/Contains/Before/Condition: the two sides swapped
+            if unparse(inner[1]) == unparse(inner[2]):
+                return None
+            inner[1], inner[2] = inner[2], inner[1]
+        return parse1(q2s(text2span(inner)))
+    if tag == "nestedparent":
+        if rng.random() < 0.5:
+            x[3] = _other(rng, x[3], ["none", "1", "2"])
+        else:
+            x[4] = _other(rng, x[4], ["sum", "max"])
+        return x
+    if tag == "nestedchildren":
+        x[3] = _mut_boost(rng, x[3])
+        return x
+    return None
+
+
+def has_empty_compound(x):
+    """an empty And/Or/DisjunctionMax/Sequence somewhere (such a node is falsy, so `other and ...` in
+    every __eq__ above it answers with the empty node instead of True)"""
+    for n in walk(x):
+        if n != "null" and n[0] in ("and", "or", "dismax") and not n[1]:
+            return True
+        if n != "null" and n[0] == "seq" and not n[2]:
+            return True
+        if n != "null" and n[0] == "opq" and has_empty_compound(opq_inner(n)):
+            return True
+    return False
